@@ -11,7 +11,9 @@ EXTENDS Observation, IOUtils, TLCExt
 VARIABLE l
 TraceLog == ndJsonDeserialize(IOEnv.TRACE_FILE)
 
-AllClose(ms, S, rs, tol) == Len(ms) = Len(rs) /\ \A i \in 1..Len(ms) : Close(ms[i], S, rs[i], tol)
+\* an observed value far outside the expected magnitude is rejected without multiplying (32-bit TLC integers)
+SafeClose(m, S, r, tol) == Abs(m) < (Big \div r[2]) /\ Close(m, S, r, tol)
+AllClose(ms, S, rs, tol) == Len(ms) = Len(rs) /\ \A i \in 1..Len(ms) : SafeClose(ms[i], S, rs[i], tol)
 \* lo, hi scaled by Se, c by S (S a multiple of Se); one rounding unit of slack
 Brackets(e, lo, c, hi) == LET q == e.S \div e.Se IN lo * q <= c + q /\ c <= hi * q + q
 Ok(e) ==
